@@ -133,7 +133,9 @@ static std::vector<Seg> g_segments;
 
 static std::string pcs(void *pc) { return strf("pc+0x%lx", (unsigned long)((uintptr_t)pc - g_exe_base)); }
 
+static bool g_table_full = false; static uint64_t g_cells_used = 0;
 static void record_access(Task *t, uintptr_t addr, unsigned size, int wr, void *pc) {
+    if (g_table_full) return;
     // hidden mutable global state: a write by library code into .data/.bss
     if (wr && addr >= (uintptr_t)&__data_start && addr < (uintptr_t)&_end) {
         if (g_findings.size() < 4) g_findings.push_back({"global-write", strf("task %d: library code wrote %u byte(s) to static storage at image offset 0x%lx (%s): hidden mutable global state", t->id, size, (unsigned long)(addr - g_exe_base), pcs(pc).c_str())});
@@ -145,7 +147,7 @@ static void record_access(Task *t, uintptr_t addr, unsigned size, int wr, void *
         size_t idx = (size_t)(mix64(g) & (NCELL - 1));
         Cell *c;
         size_t probes = 0;
-        for (;;) { c = &g_cells[idx]; if (c->gen != g_gen) { memset(c, 0, sizeof *c); c->gen = g_gen; c->gran = g; break; } if (c->gran == g) break; idx = (idx + 1) & (NCELL - 1); if (++probes >= NCELL) return; /* table full: stop recording, the budget will end the run */ }
+        for (;;) { c = &g_cells[idx]; if (c->gen != g_gen) { memset(c, 0, sizeof *c); c->gen = g_gen; c->gran = g; if (++g_cells_used > NCELL / 2) g_table_full = true; break; } if (c->gran == g) break; idx = (idx + 1) & (NCELL - 1); if (++probes >= 64) { g_table_full = true; return; } /* crowded table: stop recording, the budget will end the run */ }
         for (int u = 0; u < 4; ++u) {
             if (u == t->id) continue;
             uint8_t conflict = wr ? (uint8_t)((c->w[u] | c->r[u]) & mask) : (uint8_t)(c->w[u] & mask);
@@ -167,6 +169,8 @@ static void out_of_budget() {
 static void thr_mem(void *addr, unsigned size, int wr, void *pc) {
     Task *t = g_cur;
     if (g_budget && --g_budget == 0) out_of_budget();
+    if (size > (1u << 20)) out_of_budget();          // a single access range of more than a MiB: a length has run away
+    if (size > 64) { uint64_t cost = size / 8; if (g_budget <= cost) out_of_budget(); g_budget -= cost; }
     if (!t) {
         // sequential reference phase: no scheduling, but a write to static storage is hidden global state all the same
         if (wr && (uintptr_t)addr >= (uintptr_t)&__data_start && (uintptr_t)addr < (uintptr_t)&_end && g_findings.size() < 4)
@@ -220,7 +224,7 @@ static void final_cleanup(const ThrRun &R, std::vector<TaskState> &sts, TaskStat
 static ThrOutcome simulate(const ThrRun &R) {
     ThrOutcome O;
     g_findings.clear(); g_recorded = 0; g_switches = 0; g_sched_hash = 0; g_segments.clear(); ++g_gen;
-    g_budget = 40000000;     // two orders of magnitude above the largest legitimate run
+    g_budget = 40000000; g_table_full = false; g_cells_used = 0;     // two orders of magnitude above the largest legitimate run
     size_t T = R.tasks.size(); if (T > 4) T = 4;
     // ---- sequential reference: every task alone
     std::vector<TaskState> ref; TaskState sh;
@@ -441,7 +445,7 @@ int main(int argc, char **argv) {
         if (seen.count(rv.sig) || nfinal >= 6) continue; seen.insert(rv.sig);
         ThrRun R = make_run(seed, rv.run);
         ThrOutcome a = simulate_isolated(R), b = simulate_isolated(R);
-        if (rv.kind != "worker-death" && (a.fingerprint != b.fingerprint || a.findings.empty() || a.findings[0].kind != rv.kind)) { fprintf(stderr, "thrsim: run %llu does not repeat: harness nondeterminism\n", (unsigned long long)rv.run); ++nondet; continue; }
+        if (rv.kind != "worker-death" && (a.fingerprint != b.fingerprint || a.findings.empty() || a.findings[0].kind != rv.kind)) { fprintf(stderr, "thrsim: run %llu does not repeat in a fresh process (harness nondeterminism, or hidden state in the library coupling the runs of a worker)\n", (unsigned long long)rv.run); ++nondet; seen.erase(rv.sig); continue; }
         int trials = 0; size_t before = 0; for (auto &t : R.tasks) before += t.ops.size();
         ThrRun M = rv.kind == "worker-death" ? R : minimise(R, rv.kind, trials);
         ThrOutcome fo = simulate_isolated(M);
@@ -471,6 +475,9 @@ int main(int argc, char **argv) {
     if (want_fp) { std::sort(fps.begin(), fps.end()); uint64_t h = 0; for (auto &x : fps) h = hash_comb(h, hash_comb(x.first, hash_str(x.second.c_str()))); j += strf("  \"fingerprint_of_fingerprints\": \"%016llx\", \"fingerprints\": %zu,\n", (unsigned long long)h, fps.size()); }
     j += strf("  \"raw_violations\": %zu, \"harness_nondeterminism\": %d,\n  \"violations\": [\n%s\n  ]\n}\n", raws.size(), nondet, vj.c_str());
     if (!out.empty()) { std::ofstream f(out); f << j; } else fputs(j.c_str(), stdout);
-    if (nondet) return 2;
+    // A raw violation that does not repeat in isolation is normally a harness fault (exit 2).  If, however, other
+    // violations of the same run batch were confirmed in fresh processes, the likely cause is hidden state in the
+    // library that couples the runs of one worker process; the confirmed ones are reported (exit 1).
+    if (nondet && nfinal == 0) return 2;
     return nfinal ? 1 : 0;
 }
